@@ -31,12 +31,15 @@ var (
 	ghostC03ProbesOfEnabled int
 	ghostC03Watch           bool // the phase of the harness in which probes of disabled / removed endpoints count
 	ghostC03Gone            map[*EndpointInfo]bool
+	ghostC03Answer          bool // what every probe answers in the current phase of the harness
 )
 
-// c03Probe: the health-check function; its answer (healthy or not) is arbitrary at every probe.
+// c03Probe: the health-check function; its answer (healthy or not) is arbitrary per PHASE of the harness (initial
+// probe, each round of ticks, the change, afterwards) - not per probe, so that the native replay, in which the number
+// of probes per phase depends on timing, sees the same answers as the engine.
 func c03Probe(e *EndpointInfo) bool {
-	healthy := nondetBool("probeAnswer")
 	c03ProbeMu.Lock()
+	healthy := ghostC03Answer
 	if ghostC03Watch {
 		if e.status.Disabled {
 			ghostC03ProbeWhileOff = true
@@ -53,6 +56,12 @@ func c03Probe(e *EndpointInfo) bool {
 	return healthy
 }
 
+func c03SetAnswer(healthy bool) {
+	c03ProbeMu.Lock()
+	ghostC03Answer = healthy
+	c03ProbeMu.Unlock()
+}
+
 func c03ProbeCluster() *ClusterInfo {
 	ctx, cancel := context.WithCancel(context.Background())
 	return &ClusterInfo{ctx: ctx, cancel: cancel, Cluster: "c", restConfig: &rest.Config{}, Endpoints: &EndpointInfoMap{},
@@ -64,12 +73,13 @@ func c03ProbeCluster() *ClusterInfo {
 // probe answers arbitrary: healthy, unhealthy, flapping), then the latest server list marks it disabled, or removes it,
 // or the whole cluster is stopped - and time passes (timers and tickers fire). Once a probe that was already under way has completed, no further probe is sent to
 // it; re-enabling it starts probing again; an endpoint that stays enabled keeps being probed.
-// verif:bounds one endpoint; 0..2 rounds of ticks before the change (each probe answer symbolic), then {disable, remove, stop cluster}, then 3 timer firings; then (disable case) re-enable + 2 firings. Goroutines: run-to-block, round-robin, timers fire only at the pump points (deterministic schedule, symbolic data)
+// verif:bounds one endpoint; 0..2 rounds of ticks before the change (probe answers symbolic per phase: healthy / unhealthy / changing between phases), then {disable, remove, stop cluster}, then 3 timer firings; then (disable case) re-enable + 2 firings. Goroutines: run-to-block, round-robin, timers fire only at the pump points (deterministic schedule, symbolic data)
 func HarnessC03ProbeLoops() {
 	ghostC03ProbeWhileOff, ghostC03ProbeAfterGone, ghostC03ProbesOfEnabled, ghostC03Watch = false, false, 0, false
 	ghostC03Gone = map[*EndpointInfo]bool{}
 	c := c03ProbeCluster()
 	yes := true
+	c03SetAnswer(nondetBool("answerInitial"))
 	if err := c.syncEndpoints([]proxyv1alpha1.UpstreamClusterServer{{Endpoint: "https://a"}}); err != nil {
 		vfail("C03/sync-endpoints-fails")
 		return
@@ -81,6 +91,7 @@ func HarnessC03ProbeLoops() {
 	}
 	rounds := nondetRange("roundsBefore", 0, 2)
 	for i := 0; i < rounds; i++ {
+		c03SetAnswer(nondetBool("answerRound", i))
 		vpump(1)
 	}
 	change := nondetRange("change", 0, 2)
@@ -103,6 +114,7 @@ func HarnessC03ProbeLoops() {
 	// a probe that was already triggered when the change arrived may still complete (the loops are stopped by cancelling
 	// their context, not by interrupting a running probe): let in-flight work drain, then watch
 	vpump(0)
+	c03SetAnswer(nondetBool("answerAfterChange"))
 	c03ProbeMu.Lock()
 	ghostC03Watch = true
 	c03ProbeMu.Unlock()
